@@ -162,7 +162,7 @@ def run(chk):
     chk.rule_filter = None
     # both the atomic run queue and the event queues are messageq_t: its flag protocol must not lose a send (C04 R1, R5)
     chk.rule_prefix = "C04."
-    chk.rule_filter = lambda r: r.startswith(("R1", "R5", "R2", "R4"))
+    chk.rule_filter = lambda r: r.startswith(("R1", "R5", "R2", "R3", "R4", "R6"))
     C04.run_config(chk, "default")
     chk.rule_prefix = ""
     chk.rule_filter = None
